@@ -6,7 +6,8 @@ import os, random, re, shutil, sys
 from common import run_fjv, workdir, pmap
 
 LEVEL = "exploration"
-COQ_TARGETS = ()
+COQ_TARGETS = ("props/C14.vo",)
+THEOREMS = ["C14_apply_order_is_seqno_order_partial", "C14_nothing_applied_is_lost_partial"]
 sys.setrecursionlimit(100000)
 KEYS = ["61", "62", "63", "64"]
 
@@ -182,6 +183,28 @@ def held_writer(args):
     return dict(prog=prog, problems=problems, site=site)
 
 
+def single_worker_liveness(args):
+    """writers must keep making progress with exactly ONE worker thread: 48 rounds of writes to the same few keys, each
+    followed by a memtable rotation (every flushed table overlaps the others = one more L0 run), climb to the write-halt
+    threshold of 30 runs within the run unless the single worker also compacts"""
+    mode, rounds = args
+    L = ["open %s workers=1" % mode, "ks h0 alpha"]
+    puts = []
+    for r_ in range(rounds):
+        for i in range(6):
+            n = r_ * 6 + i
+            L.append("thread w%d put h0 %02x %04x%s &" % (n % 3, 0x61 + n % 5, n, "ee" * 24))
+            puts.append(len(L))
+        L += ["sleep 30", "rotate h0", "sleep 60"]
+    L += ["sleep 500", "len - h0"]
+    prog = "\n".join(L) + "\n"
+    o, raw, rc = run_fjv(prog, env_extra={"FJV_SYNC_TIMEOUT_MS": "30000"}, timeout=200)
+    done = sum(1 for i in puts if (o.get(i) or "").startswith("ok"))
+    if done < len(puts) or o.get(len(L)) != "5":
+        return ("with one worker thread only %d of %d writes returned (len = %s): writers stall" % (done, len(puts), o.get(len(L))), prog)
+    return None
+
+
 HELD = [(s_, a, b) for s_, kinds in (("ks.after_journal", ("put", "del")), ("ks.before_publish", ("put", "del")),
                                       ("batch.after_seqno", ("batch",)), ("batch.after_item", ("batch",)),
                                       ("batch.before_publish", ("batch",)))
@@ -189,10 +212,15 @@ HELD = [(s_, a, b) for s_, kinds in (("ks.after_journal", ("put", "del")), ("ks.
 
 
 def run(rep, tier, seed, build):
+    from common import proof_audit
+    obl, dis, pproblems = proof_audit("props/C14.v", THEOREMS, build["coq"])
     hw = pmap(held_writer, HELD if tier != "quick" else [x for i, x in enumerate(HELD) if (i + seed) % 2 == 0 or x[0] == "ks.after_journal"],
               workers=6)
     for x in [x for x in hw if x["problems"]][:2]:
         rep.violation("# C14: writer held at %s while a second writer, a rotation and a flush run: %s\n%s" % (x["site"], x["problems"][0], x["prog"]))
+    sw = [x for x in pmap(single_worker_liveness, [("plain", 48)] if tier == "quick" else [("plain", 48), ("sw", 60), ("occ", 80)], workers=3) if x]
+    for msg, prog in sw[:1]:
+        rep.violation("# C14: %s\n%s" % (msg, "\n".join(prog.splitlines()[:12]) + "\n... (rounds of 6 asynchronous puts on 3 threads + rotate)\n"))
     n = 24 if tier == "quick" else 300
     res = pmap(judge, [(seed * 2147483647 + i, tier) for i in range(n)], workers=4)
     bad = [x for x in res if x["problems"]]
@@ -205,7 +233,10 @@ def run(rep, tier, seed, build):
                              "timestamped at call and return; per-key Wing-Gong linearizability search including a final read of the "
                              "content; content after reopen must equal the final content; distinct by (threads, ops, workers, memtable)",
                         samples=[res[0]["run"]["prog"].splitlines()[:8]], held_writer_schedules=len(hw), runs=n, threads_max=max(x["run"]["threads"] for x in res),
-                        disagreements_checked=len(bad))
+                        disagreements_checked=len(bad), partial_theorems=THEOREMS, partial_theorems_discharged=dis,
+                        partial_theorem_problems=pproblems)
+    if pproblems and not rep.violations:
+        rep.violation("# C14: partial theorems no longer check\n" + "\n".join(pproblems) + "\n", suffix="no-failing-input-found")
     rep.assumptions = ["thread schedules are sampled by the OS scheduler, not enumerated", "timestamps are taken in the harness around each API call"]
 
 
